@@ -175,6 +175,7 @@ impl Gen<'_> {
     let hdr_alg: Option<String> = match rng.below(20) {
       0 => None,
       1 | 2 => Some(rng.pick(UNSUPPORTED_ALGS).to_string()),
+      4 => Some("none".to_string()),
       3 => Some(rng.pick(&Alg::ALL).name().to_string()), // may differ from the signer's
       _ => Some(alg.name().to_string()),
     };
@@ -277,6 +278,8 @@ impl Gen<'_> {
     };
     let (hdr_alg, b64) = if prot_missing { (None, None) } else { (hdr_alg, b64) };
     let embedded = if prot_missing { None } else { embedded };
+    // an "Unsecured JWS" (alg none, empty signature) must not be reported verified without the verifier's consent
+    let sig_mode = if hdr_alg.as_deref() == Some("none") && rng.chance(2, 3) { SigMode::Empty } else { sig_mode };
     let sig_mode = if embedded.is_some() && !force_legal && rng.chance(2, 3) { SigMode::ByEmbeddedKey } else { sig_mode };
     Entry { prot_json, prot_seg, unprot_json, hdr_alg, b64, legal_headers: legal, signer, caller, key_pin, sig_mode, sig: Vec::new(), kid, caller_kid, embedded }
   }
